@@ -1,13 +1,13 @@
 #!/bin/bash
-# usage: tools/confirm_round.sh <clone> ID...   round-3 seeds /tmp/seedr3-<ID>-out/mK -> seeded/<ID>-m(K+6)  (development aid)
-CLONE=$1; shift
+# usage: tools/confirm_round.sh <clone> <round> <offset> ID...   seeds /tmp/seedr<round>-<ID>-out/mK -> seeded/<ID>-m(K+offset)  (development aid)
+CLONE=$1; RND=$2; OFF=$3; shift 3
 for ID in "$@"; do
   for K in 1 2 3; do
-    d=/tmp/seedr3-$ID-out/m$K
+    d=/tmp/seedr$RND-$ID-out/m$K
     [ -f $d/patch.diff ] || continue
-    n=$ID-m$((K+6))
+    n=$ID-m$((K+OFF))
     echo "=== $n"
     $CLONE/tools/confirm_seed.sh $d $ID $n 2>&1 | tail -1
   done
 done
-echo R3-DONE
+echo R$RND-DONE
